@@ -28,3 +28,8 @@ Print Assumptions C14_schedule_independent.
 (* the hypothesis is satisfied by the current source *)
 Theorem C14_handler_is_locked : handler_locked = true.
 Proof. exact handler_is_locked. Qed.
+
+(* and the threads of the model are all there is: no statement of a request runs outside the lock *)
+Theorem C14_nothing_outside_the_lock : handler_unlocked_statements = nil.
+Proof. exact nothing_outside_the_lock. Qed.
+Print Assumptions C14_nothing_outside_the_lock.
